@@ -86,9 +86,9 @@ def record_fick(data, want=("steps", "dec", "chk", "trace")):
         it = fk.Interpreter(p)
         try:
             for _ in range(len(p)):
-                it.step()
+                op = it.step()
                 out["steps"].append(_proj(it, fk))
-                if it._module is not None:
+                if getattr(getattr(op, "info", None), "name", "") == "STOP":        # the program is complete
                     break
         except StopIteration:
             pass
